@@ -29,6 +29,9 @@ BASE_INTERVALS = [
 ]
 
 
+HUGE_EASY = [(3_000_000_000, 1), (0, 5_000_000_000)]  # class totals beyond 2^31 / 2^32 (counted, never held)
+
+
 def bounds(tier):
     if tier == "quick":
         return {"max_pos": 3, "max_neg": 3, "easy": [[0, 0], [1, 0], [0, 2], [2, 2]],
@@ -81,7 +84,7 @@ def run(item, ctx, tier, seed):
     TOL = 1e-9
     for cfg in ot.CFGS:
         sc, ec = cfg
-        for ep, en in [tuple(e) for e in b["easy"]]:
+        for ep, en in [tuple(e) for e in b["easy"]] + (HUGE_EASY if gkind in ("irregular", "int") else []):
             case = {"blocks": item["blocks"], "grid": item["grid"], "pos": pos, "neg": neg, "cfg": cfg,
                     "easy": [ep, en]}
             pin, nin = (pos[::-1], neg[::-1]) if dt is None else (np.array(pos[::-1], dtype=dt), np.array(neg[::-1], dtype=dt))
